@@ -12,939 +12,1140 @@ Definition show_fres (r : fres) : string :=
   end.
 Definition check (rs : list rune) : string := digest (show_fres (format_res rs)).
 Definition full (rs : list rune) : string := show_fres (format_res rs).
-Eval vm_compute in ("<<<M279>>>" ++ check (runes_of_ascii "  root packet
-    crc {	uint32
-repeatCount //
-@lengthOf( // a // b
-MetaDataX	) `say ""hi""` ,
-    @tag( 65535 ) A {
-    u128 , u8x	{ repeatCount  @lengthOf( As )// c
-,// packet A { u8 x, }
-i32	_x@calculatedFrom(//	t
-""" ++ [128512]%N ++ runes_of_ascii """	), } , } // c
+Eval vm_compute in ("<<<M1574>>>" ++ check (runes_of_ascii "
+// top
+	packet 
+      // c0
+		Frame	// c1a
+      // c1b
+    	{
+	// c2
+		u8// c3
+HK // c4
+, // c5
+      u8	// c6
+	BK
+, 	 // c8a
+    // c8b
+	u8 
+// c9
+  	TK// c10
+,match// c12
+	  HK
+	    // c13
+
+	as  Hdr 
+        // c15
+
+  { // c16a
+      // c16b
+  1	// c17
+	:	// c18a
+    // c18b
+HdrA	// c19a
+// c19b
+      ,
+2  // c21a
+	// c21b
+  :
+    // c22
+    HdrB ,// c24
+    	}
+    // c25
+
+,// c26a
+
+  // c26b
+	match  // c27a
+
+  // c27b
+BK
+    // c28
+	  as 
+	// c29
+	Body  { 
+1  // c32a
+    	// c32b
+
+: // c33a
+// c33b
+	BodyA // c34a
+      // c34b
+  	, // c35a
+  // c35b
+      2 
+
+// c36
+	: 
+// c37
+  BodyB ,	// c39a
+  // c39b
+  }	, 
+	    // c41
+	match
+
+    // c42
+	TK  // c43
+as
+    Trl	// c45a
+// c45b
+	{
+1  // c47
+	:	// c48
+  TrlA 	 // c49
+    , 	 // c50
+
+}	,
+// c52
+    	}
+	    // c53
+packet HdrA  // c55
+  { 	 // c56
+	  u8  // c57
+a	// c58a
+    // c58b
+, // c59
+	  }	// c60a
+    	// c60b
+    packet
+
+    HdrB	// c62
+
+{
+    // c63
+		u16  b 
+      // c65
+
 ,
-@lengthOf(As ) @tag(  0 ) @tag(4294967296 ) string metadata ,
-string lengthOf // `tick` ""quote"" 'q'
-@lengthOf(f32a) , @tag( 3 )string packetx,	@lengthOf( Pad) @lengthOf( packetx ) BodyLength @calculatedFrom( ""a	b"" )
-, repeat u8x
-{ zchar[ 3 ]
-    tag `doc` , match As as leftPad
-    { [
-    10 ,
-3 , 7 ,
-""abc"" , 42 // @lengthOf(
-]
-:
-A
-, } , match Header as falsey { 42
-// `tick` ""quote"" 'q'
-// trailing space 
-:
-    msg_type
-    , 00
-: A
-1 :
-charz ,""// no comment"" : int // @lengthOf(
-,	0123456789 :chars , 4294967296
-: x } ,
+	}packet
+// c68
+      BodyA // c69
+	{	// c70
+	u32
+// c71
+    c
+// c72
+	,	// c73
+		}
+
+// c74
+  packet// c75
+	BodyB 	 // c76
+  {	u64
+d 
+,	// c80a
+	// c80b
+    } 
+      // c81
+	packet	// c82
+	TrlA 
+        // c83
+
+	{ // c84a
+// c84b
+
+u8 	 // c85
+	e 
+    // c86
+,  // c87a
+	// c87b
+	}
+
+    root
+    // c89
+    packet 
+
+// c90
+	Msg // c91
+	  { 	 // c92
+
+	Frame // c93a
+      // c93b
+
+,	// c94a
+  // c94b
+
+u8	// c95a
+		// c95b
+	x  
+      // c96
+	  , // c97
+	} 
+      // c98")).
+Eval vm_compute in ("<<<M1502>>>" ++ check (runes_of_ascii "// @lengthOf(
+MetaData BodyLength {
+    u8x u128 `a\`,
 }
+
+packet stringy {
+}
+
+packet a1 {
+    i8 f32a `
+    `,
+    repeat i64 len,
+    @calculatedFrom(""\" ++ [233]%N ++ runes_of_ascii """)
+    string leftPad `line1
+    line2`,
+    match a1 as float {
+        [007, 3] : repeatCount,
+        3 : MetaDataX,
+        ""CRC32"" : u128,
+        [""a\""b"", ""// no comment""] : roots,
+        ""\" ++ [233]%N ++ runes_of_ascii """ : A,
+    },
+    zchar[42] Pad,/// triple
+    @calculatedFrom(""" ++ [233]%N ++ runes_of_ascii "t" ++ [233]%N ++ runes_of_ascii """)
+    // `tick` ""quote"" 'q'
+    match chars as string_ {
+        3 : options1,
+    },
+    uint32 packetx ``,
+    @tag(42)
+    @tag(1)
     /// triple
-    , @tag(
-10 ) @tag(//x
-007 )
-@calculatedFrom( ""`tick`""
-    )i8i8 @lengthOf(
-    //
-    charz ),
-    char[ 7] Header
-, } packet
-lengthOf // @lengthOf(
-{match metadata
-    // " ++ [128512]%N ++ runes_of_ascii " emoji
-    as asx{ 7 // packet A { u8 x, }
-: //
-float  ,
-    // " ++ [128512]%N ++ runes_of_ascii " emoji
-    """ ++ [233]%N ++ runes_of_ascii "t" ++ [233]%N ++ runes_of_ascii """:
-stringy
-, """ ++ [28040; 24687]%N ++ runes_of_ascii """ :
-BodyLength , 7 : leftPad , } , @lengthOf(MetaDataX
-)repeat zchar[ 7 ]float , @tag( 0
-    )matchKey @calculatedFrom(""packet""
-    ) // packet A { u8 x, }
-, }packet Pad{ options1 @lengthOf(rootA ),} root // c
-packet BodyLength{
-string uint8x
-//
-// " ++ [27880; 37322]%N ++ runes_of_ascii "
-@lengthOf( Z9_) , } // c")).
-Eval vm_compute in ("<<<M96>>>" ++ check (runes_of_ascii "packet  int//x
-{
-// " ++ [128512]%N ++ runes_of_ascii " emoji
-//	t
-} packet Z9_ {
-    @tag(  1
-) @tag(00 ) zchar[ 0 ] trueish `// not a comment`
-, Header @lengthOf(
-repeatCount ) // `tick` ""quote"" 'q'
-,charz float`crlf
-line` , match
-lengthOf as	u
-    // c
-    { // `tick` ""quote"" 'q'
-65535  :
-    msg_type
-,""1""
-:
-    // " ++ [27880; 37322]%N ++ runes_of_ascii "
-    x
-    ,
-""a\""b"" : packetx , 10:
-msg_type """ ++ [128512]%N ++ runes_of_ascii """ :
-calculatedFrom [
-7 ,0	]
-    // c
-    : // " ++ [128512]%N ++ runes_of_ascii " emoji
-u128 , }, string i8i8`{ , }` , } packet// @lengthOf(
-a1{ } root packet roots {
-    @lengthOf(
-    // " ++ [128512]%N ++ runes_of_ascii " emoji
-    u )
-f64 Logon,@lengthOf(
-_x	) As
-    @calculatedFrom(""\n"" ) , @leftPad
-// packet A { u8 x, }
-// " ++ [27880; 37322]%N ++ runes_of_ascii "
-(  )repeatCount
-@calculatedFrom( ""{,}""
-)
-`tab	here`
-    // trailing space 
-    , @tag(
-    //x
-    42)char[
-1
-    ]T
-    `a\`
-,int64
-_x// packet A { u8 x, }
-, zchar[	4294967296
-    ]
-i64_ @lengthOf(  tag
-    //	t
-    )
-    `
-`
-    , @calculatedFrom(""a\""b""
-    //x
-    ) u8 len`it's` , @leftPad
-(
-) metadata@lengthOf(tag
-    ) `{ , }` ,@leftPad// packet A { u8 x, }
-( ' '
-) MetaDataX  {
-    repeat char[]	rootA
-    ,
-    // c
-    } ,i8 body ,}
-")).
-Eval vm_compute in ("<<<M1839>>>" ++ check (runes_of_ascii "options {
-    string_ = false;
-    falsey = char[4294967296];
+    @calculatedFrom(""" ++ [128512]%N ++ runes_of_ascii """)
+    _x `// not a comment`,
 }
 
-packet zchar {
-    match float as len {
-        [""" ++ [233]%N ++ runes_of_ascii "t" ++ [233]%N ++ runes_of_ascii """] : matchKey,
-        3 : u,
-        [4294967296, ""1""] : zchar,
-    },
-}
-
-MetaData T {
-    // c
-    // a // b
-}
-
-packet packetx {
-    uint16 uint8x @calculatedFrom(""it's""),
-    stringy {
-        i16 crc `{ , }`,
-    },
-    zchar[00] x,
-    zchar {
-        uint64 tag,
-        zchar f32a `say ""hi""`,
-        uint32 A `{ , }`,
-        match _x as falsey {
-            [007, """ ++ [128512]%N ++ runes_of_ascii """] : matchKey,
-            // " ++ [128512]%N ++ runes_of_ascii " emoji
-            [0123456789, 3] : T,
-            // " ++ [128512]%N ++ runes_of_ascii " emoji
-            // `tick` ""quote"" 'q'
-            1 : Foo,
-        },// trailing space 
-    },
-    A,
-    zchar[4294967296] string_ @lengthOf(float),
-    match rootA as As {
+root packet repeatCount {
+    @leftPad()
+    char[0] x_y_z @calculatedFrom(""1""),
+    @rightPad()
+    char[] int,
+    f64 asx,
+    repeat Pad,
+    match i64_ as roots {
+        [""1"", ""packet""] : a1,
+        ""`tick`"" : trueish,
         [
-            ""it's"", 255, 0123456789, """ ++ [233]%N ++ runes_of_ascii "t" ++ [233]%N ++ runes_of_ascii """, ""{,}"",
-            ""abc"", """ ++ [233]%N ++ runes_of_ascii "t" ++ [233]%N ++ runes_of_ascii """
-        ] : int,
-        4294967296 : tag,
+            3, ""\n"", ""`tick`"", ""it's"", 10,
+            ""a\""b"", ""CRC32""
+        ] : As,
+        [10, 10] : options1,
+        ""CRC32"" : a1,
+        65535 : u,
+        // c
     },
+    @calculatedFrom(""x y"")
+    @tag(255)
+    @tag(1)
+    // c
+    zchar[1] crc `
+    `,
+    repeat u16 tag `crlf
+    line`,
+    @leftPad(' ')
+    roots @calculatedFrom(""""),
 }")).
-Eval vm_compute in ("<<<M298>>>" ++ check (runes_of_ascii "
-options  { } options
-    {  uint8x =
-// @lengthOf(
-// " ++ [27880; 37322]%N ++ runes_of_ascii "
-42 uint8x = /// triple
-""abc"" ; //x
-_x='0'
-    }
-    packet u8x
-    { zchar[ 1 ] As
-`crlf
-line`, match metadata as float  { ""packet"" ://
-trueish , } , repeat
-rootA
-, repeat metadata repeatCount// trailing space 
-, @rightPad( // `tick` ""quote"" 'q'
-'0') i64 body `// not a comment`
-, @tag( 1) string string_
-    `line1
-line2` ,
-uint8 u8x`" ++ [28040; 24687; 31867; 22411]%N ++ runes_of_ascii "` ,
-packetx u128,	u tag , repeat Logon zchar
-`` ,  }packet zchar
+Eval vm_compute in ("<<<M347>>>" ++ check (runes_of_ascii "
+options
+{} MetaData f32a
 {
-    }	packet	MetaDataX { @lengthOf(
-Packet ) repeatCount  int
-`doc` , @tag(
-7 ) packetx @calculatedFrom( ""a\""b""// c
-) , match msg_type as x { ""\n"" : calculatedFrom }, //x
-@leftPad (// packet A { u8 x, }
-'\x00')@lengthOf( MetaDataX // c
+// packet A { u8 x, }
+// 50% %s
+uint32 u128//
+`" ++ [28040; 24687; 31867; 22411]%N ++ runes_of_ascii "` ,
+// " ++ [27880; 37322]%N ++ runes_of_ascii "
+// a // b
+zchar[ 0 ]
+    //	t
+    o
+    , char[
+    0 ]float,
+    msg_type msg_type , } packet // a // b
+x_y_z { // a // b
+repeat T
+    { match
+    msg_type as
+packetx {// a // b
+""packet"" :
+falsey 42:	a1,} , int o , char[// c
+42	]i64_ `100% of %d`, repeatCount	@calculatedFrom( ""it's"" // a // b
+),
+// trailing space 
+// " ++ [27880; 37322]%N ++ runes_of_ascii "
+}
+,  @tag( //
+0 ) // " ++ [27880; 37322]%N ++ runes_of_ascii "
+falsey @lengthOf(BodyLength
 )
-    // a // b
-    char[007
-] a1`tab	here`, As
-    @calculatedFrom( ""`tick`"") `// not a comment`,} 	 ")).
-Eval vm_compute in ("<<<M312>>>" ++ check (runes_of_ascii "packet // packet A { u8 x, }
-tag
-    { @calculatedFrom(""x y"" ) lengthOf{ options1
-    `
-`,} , @tag( 7 )
-int {
+//	t
+// c
+, @leftPad
+    // packet A { u8 x, }
+    () @calculatedFrom( ""1"" ) @lengthOf( // " ++ [128512]%N ++ runes_of_ascii " emoji
+int )
+    match trueish as body{ [ 007 ,
+7 //
+, ""abc"",
+""x y""
+, 00
+    ,
+    ""// no comment""
+    ,255 ,
+1
+    ]
+: body,} , @lengthOf( Pad
+    ) metadata	@calculatedFrom(	""it's""
+) , @leftPad ( )
+//
+/// triple
+@calculatedFrom(
+""" ++ [233]%N ++ runes_of_ascii "t" ++ [233]%N ++ runes_of_ascii """ // 50% %s
+)char // @lengthOf(
+falsey	`{ , }` , char[ 007 ]
+metadata @lengthOf(chars ) , @rightPad ( '0'  ) u8 roots @calculatedFrom( ""packet"" )
+    // @lengthOf(
+    ,
+//x
+//x
+}")).
+Eval vm_compute in ("<<<M1349>>>" ++ check (runes_of_ascii "options {
+    LittleEndian = false;
+    FixedStringPadChar = ' ';
+}
+packet Fill {
+    InFlags6 {
+        repeat u64 count,
+    },
+    char[8] price,
+    repeat char[2] lastPx,
+    char[] count,
+}
+packet Quote {
+    char[] Qty,
+    int32 sym,
+    zchar[9] Flags,
+    int8 tag7,
+    char[7] count,
+}
+packet Cancel {
+    string Acct,
+    @rightPad('\x00') char[2] Note,
+    zchar[5] Side2,
+}
+packet Trade {
+    repeat Quote,
+    Fill,
+    repeat i64 Side2,
+    uint16 Tail,
+    zchar[7] OrderId,
+}
+root packet Party {
+    repeat InLastpx79 {
+        char[12] Px,
+        int8 Tail,
+    },
+    f32 count,
+    repeat u8 Note,
+    Trade,
+    f64 venue,
+    @rightPad('\x00') char[11] tag7,
+    u16 Px,
+    u32 Side2 @lengthOf(Body),
+    match Px as Body {
+        [48, 188] : Fill,
+        190 : Trade,
+        160 : Quote,
+        85 : Cancel,
+    },
+}
+")).
+Eval vm_compute in ("<<<M1326>>>" ++ check (runes_of_ascii "packet MDSnapshotZZ // c1a
+  // c1b
+{ // c2
+u8
+    // c3
+a , // c5a
+  // c5b
+} // c6a
+  // c6b
+packet OrderACK
+    // c8
+{ // c9a
+  // c9b
+u16 // c10a
+  // c10b
+b
+    // c11
+, // c12a
+  // c12b
+} // c13a
+  // c13b
+packet HTTPServerInfo // c15
+{ string
+    // c17
+s // c18a
+  // c18b
+,
+    // c19
+} root packet // c22
+FIXMsg // c23
+{ // c24a
+  // c24b
+u8 // c25
+KType
+    // c26
+, // c27
+MDSnapshotZZ // c28
+, // c29a
+  // c29b
+repeat // c30a
+  // c30b
+OrderACK // c31a
+  // c31b
+, // c32
+match // c33a
+  // c33b
+KType // c34a
+  // c34b
+as Body // c36
+{ // c37a
+  // c37b
+1
+    // c38
+: // c39
+HTTPServerInfo
+    // c40
+,
+    // c41
+2
+    // c42
+: // c43
+OrderACK
+    // c44
+, }
+    // c46
+, // c47a
+  // c47b
+} // c48
+")).
+Eval vm_compute in ("<<<M19>>>" ++ check (runes_of_ascii "options {i64_ = ' ' ;As //	t
+= ""x y""
+    _x= f64 } packet asx
+    {
+    string i8i8
+    , } // 50% %s
+packet float
+    {// 50% %s
+repeat char[ 1
+    ] trueish,  body
+@lengthOf( string_ )`two words` ,@calculatedFrom(""CRC32"") i8 u
+@lengthOf( uint8x ) ,
+    // trailing space 
+    @leftPad
+    () repeat
+    uint8x `` , body tag`tab	here`
+    ,
+string
+    chars
+    `tab	here`, @tag(
+0
+) asx , } // `tick` ""quote"" 'q'
+root packet//	t
+u128//	t
+{
+} MetaData// `tick` ""quote"" 'q'
+x_y_z  { int32 u128 , len calculatedFrom	, char[ 0 ]
+    /// triple
+    _x
+`a\` , zchar[ 1
+    ]
+    x
+    , string  MetaDataX `{ , }`
+    // trailing space 
+    ,
+}
+")).
+Eval vm_compute in ("<<<M71>>>" ++ check (runes_of_ascii "root
+packet
+    matchKey { } MetaData
+u  {
+    } packet zchar { uint32 Z9_
+@lengthOf(A ) `" ++ [233]%N ++ runes_of_ascii "` , @calculatedFrom( ""packet"" ) @tag( 0123456789 )
+Header @calculatedFrom(
+    ""1""
+) `say ""hi""` , @lengthOf(
+// a // b
+//x
+repeatCount // trailing space 
+)
+u8 //
+stringy
+@lengthOf(
+    x
+) , string	string_ @calculatedFrom(""{,}"" ) ,zchar[ 4294967296] tag , char[]
+    trueish @calculatedFrom( ""`tick`"") `doc`
+,float32 repeatCount @lengthOf(	charz )
+`" ++ [233]%N ++ runes_of_ascii "` , @rightPad( )repeat
+f64 lengthOf `tab	here`
+    , @rightPad ( '0' )
+@calculatedFrom(
+    ""a\""b"" ) roots
+    ,	}
+")).
+Eval vm_compute in ("<<<M1134>>>" ++ check (runes_of_ascii "packet float
+    // c1
+{ // c2
+@rightPad // c3a
+  // c3b
+( // c4a
+  // c4b
+) // c5a
+  // c5b
+rootA // c6
+@lengthOf( // c7a
+  // c7b
+trueish // c8
+)
+    // c9
+,
+    // c10
+stringy // c11a
+  // c11b
+@lengthOf( // c12a
+  // c12b
+matchKey )
+    // c14
+, // c15a
+  // c15b
+char[ 4294967296 ]
+    // c18
+pack @lengthOf(
+    // c20
+uint8x
+    // c21
+) // c22a
+  // c22b
+,
+    // c23
+} // c24
+root // c25
+packet trueish {
+    // c28
+repeat uint64
+    // c30
+u128
+    // c31
+`say ""hi""` // c32
+,
+    // c33
+}
+    // c34
+")).
+Eval vm_compute in ("<<<M1160>>>" ++ check (runes_of_ascii "// top
+MetaData
+    // c0
+x
+    // c1
+{
+    // c2
+f32a
+    // c3
+Pad
+    // c4
+``
+    // c5
+,
+    // c6
+}
+    // c7
+packet
+    // c8
+leftPad
+    // c9
+{
+    // c10
+repeat
+    // c11
+int64
+    // c12
+crc
+    // c13
+,
+    // c14
+BodyLength
+    // c15
+{
+    // c16
+uint8
+    // c17
+pack
+    // c18
+`say ""hi""`
+    // c19
+,
+    // c20
+lengthOf
+    // c21
+@lengthOf(
+    // c22
+asx
+    // c23
+)
+    // c24
+`" ++ [28040; 24687; 31867; 22411]%N ++ runes_of_ascii "`
+    // c25
+,
+    // c26
+}
+    // c27
+,
+    // c28
+}
+    // c29
+")).
+Eval vm_compute in ("<<<M146>>>" ++ check (runes_of_ascii "
+root
+    packet rootA {@tag(
+    3
+    // " ++ [27880; 37322]%N ++ runes_of_ascii "
+    ) T {int64  pack @calculatedFrom(
+    ""a\\"")`tab	here`  ,
+char[
+    10
+    ] float , u // trailing space 
+{
+repeat
+    f32 chars,
+} ,	char[] f32a @lengthOf(zchar
+// `tick` ""quote"" 'q'
+// " ++ [128512]%N ++ runes_of_ascii " emoji
+) , } , @calculatedFrom(
+""CRC32""	)  u32 x_y_z @lengthOf(Header )
+`say ""hi""` ,@tag(65535 ) char
+Logon `line1
+line2`
+//
+// `tick` ""quote"" 'q'
+,  float32
+    zchar
+    `// not a comment`,}
+")).
+Eval vm_compute in ("<<<M63>>>" ++ check (runes_of_ascii "packet	body { @leftPad// " ++ [27880; 37322]%N ++ runes_of_ascii "
+( '0' ) stringy  roots	,
+@rightPad
+('0' )	asx @lengthOf(
+_x ) ,
+    //	t
+    } packet chars {
+@tag(
+255	) i32 msg_type
+    , o	{
+pack @calculatedFrom(
+""abc"" ), match rootA as tag{ [ 0123456789
+    // @lengthOf(
+    , 7 ] : len , } ,
+    u32 BodyLength	@calculatedFrom(
+""packet"" )`say ""hi""` , lengthOf u ,	}
+,@rightPad ( ' ' ) repeat
+    f32a ,
+    } MetaData
+    msg_type	{}")).
+Eval vm_compute in ("<<<M363>>>" ++ check (runes_of_ascii "packet
+i64_ {@calculatedFrom(""a	b"" ) match Logon as packetx	{ 10  :
+rootA ""it's"" : BodyLength,[ """ ++ [28040; 24687]%N ++ runes_of_ascii """ ,3 ]
+    :roots[
+    // packet A { u8 x, }
+    ""\" ++ [233]%N ++ runes_of_ascii """ ]  :
+rootA ,""{,}"" : chars, [  """ ++ [28040; 24687]%N ++ runes_of_ascii """ ] : pack , } ,
+    }
+    MetaData trueish
+{ u64	uint8x //
+`say ""hi""` , string uint8x `{ , }`
+, BodyLength uint8x
 //x
 // " ++ [27880; 37322]%N ++ runes_of_ascii "
-char[ 007  ] // `tick` ""quote"" 'q'
-calculatedFrom @lengthOf(
-metadata
-)  , tag @lengthOf( falsey
-) ,	f32
-    // " ++ [128512]%N ++ runes_of_ascii " emoji
-    calculatedFrom
-// `tick` ""quote"" 'q'
-//
-`{ , }` , i8i8
-    {string
-    i64_ @lengthOf( asx )	`it's` , u @calculatedFrom(  ""\n"" ) ,
-    } ,	}
-    ,
-    @calculatedFrom(""abc"" //
-)  @leftPad ( ' '
-    )  uint64 calculatedFrom
-,// " ++ [27880; 37322]%N ++ runes_of_ascii "
-} packet o { Header ,
-    @lengthOf(	i8i8
-) float32
-    Pad // c
-,char[ 42 ]
-leftPad
-    @calculatedFrom(	"""" // " ++ [128512]%N ++ runes_of_ascii " emoji
-)
-    , @tag( 255 )
-body
-    u , } packet lengthOf{
-// packet A { u8 x, }
-// c
-@tag(
-    255 //x
-) char[ 0123456789 ] o
-`
-` , }
-
+`{ , }` , char[]	pack`u8 x,`, // `tick` ""quote"" 'q'
+}
 ")).
-Eval vm_compute in ("<<<M6>>>" ++ check (runes_of_ascii "// `tick` ""quote"" 'q'
-packet As
-{ @rightPad ( '0' ) stringy
-@lengthOf( calculatedFrom),	@tag( 10	) string uint8x `
-` ,	match body // packet A { u8 x, }
-as uint8x {
-    ""it's"" :  rootA , [ 00 ] : leftPad
-    ,
-42 :	MetaDataX , ""a	b"" :  calculatedFrom
-    255
-:trueish	} , repeat	i64 Logon `tab	here` , } options {crc
-= '\x00' ;}
-packet x { @calculatedFrom(
-""a\\""
-    )
-@tag( 42
-) @leftPad	( '0' // c
-) match o	as /// triple
-x_y_z {// packet A { u8 x, }
-[ """ ++ [128512]%N ++ runes_of_ascii """// trailing space 
-, ""x y"" , // c
-0123456789 ,""CRC32"" ,
-//	t
-// packet A { u8 x, }
-""it's""
-, 007
-, 3, 007 // @lengthOf(
-] :	Packet // c
-[	255, ""x y""
-    ] :x_y_z
-    ,
-} , }
-// trailing space 
+Eval vm_compute in ("<<<M182>>>" ++ check (runes_of_ascii "options{ Logon='\x00';
+    Foo
+= ""// no comment""x
+=""a\""b"" }
+    packet rootA {	@tag( 007
+    ) @calculatedFrom( ""a\\""	) // `tick` ""quote"" 'q'
+u{ match
+o as
+    Foo { 255 : asx , ""a\""b"" : zchar, [  ""a	b""	,	""{,}"" , 10
+] : _x } ,// a // b
+char[42
+    ]
+As
+`a\` , int32 i64_
+    @calculatedFrom( """ ++ [28040; 24687]%N ++ runes_of_ascii """ ) // " ++ [27880; 37322]%N ++ runes_of_ascii "
+, repeat chars
+packetx
+    ,} , }
 ")).
-Eval vm_compute in ("<<<M1688>>>" ++ check (runes_of_ascii "//x
-packet x {
-    @lengthOf(string_)
-    // `tick` ""quote"" 'q'
-    // trailing space 
-    msg_type {
-        int @lengthOf(chars) `" ++ [28040; 24687; 31867; 22411]%N ++ runes_of_ascii "`,
-        int `a\`,
-    },
-    uint32 chars @calculatedFrom(""`tick`"") `
-    `,
-    @lengthOf(packetx)
-    match metadata as x_y_z {
-        65535 : x,
-        007 : u,
-        [7, ""// no comment"", """ ++ [28040; 24687]%N ++ runes_of_ascii """] : x,
-        ""a\\"" : MetaDataX,
-        0123456789 : lengthOf,
-        10 : float,
-    },
-    u16 Logon @calculatedFrom(""x y"") `tab	here`,
-    @lengthOf(Foo)
-    zchar,
+Eval vm_compute in ("<<<M1519>>>" ++ check (runes_of_ascii "MetaData body {
+    Foo Packet `a\`,
+    T float,
+    int64 Logon `// not a comment`,
+    zchar[0] i64_ `" ++ [28040; 24687; 31867; 22411]%N ++ runes_of_ascii "`,// `tick` ""quote"" 'q'
+    char[7] calculatedFrom,
+    int16 Logon,
 }
 
-packet tag {
-}
-
-root packet x_y_z {
-}
-
-MetaData int {
-    string A `" ++ [233]%N ++ runes_of_ascii "`,
+MetaData i64_ {
+    int leftPad `// not a comment`,
+    trueish Logon,
+    string Header `doc`,// packet A { u8 x, }
 }")).
-Eval vm_compute in ("<<<M1824>>>" ++ check (runes_of_ascii "  options {
-	rootA =4294967296	;falsey = ""a\""b""  ;
-
-    As
-
-    =
-    // @lengthOf(
-	/// triple
-""""  ;
-    packetx
-=""packet""
-
-    i8i8=
-true	;} 	 // `tick` ""quote"" 'q'
-	packet
-
-x {
-repeat
-zchar
-rootA ,
-char[]
-    pack
-	`// not a comment`
-
-, @tag(
-00	)
-@tag(
-
-0123456789  ) u	@calculatedFrom( ""packet"" )
-`u8 x,`,  Header
-{ zchar[
-
-00 ]	body,a1 @calculatedFrom(// " ++ [128512]%N ++ runes_of_ascii " emoji
-""it's"")
-    `" ++ [233]%N ++ runes_of_ascii "`	,
-
-}
-    , }  // " ++ [27880; 37322]%N ++ runes_of_ascii "
-		MetaData A	// a // b
-  	{zchar/// triple
-matchKey
-`` ,
-
-    int64 metadata ,
-	char[] 
-_x  //	t
-    , 
-}
-")).
-Eval vm_compute in ("<<<M1872>>>" ++ check (runes_of_ascii "// top
-packet Logon {
-    // c2a
-    // c2b
-    string user,// c5a
-    // c5b
-}// c6a
-
-// c6b
-root packet Frame {
-    // c10
-    u8 K,
-    // c13
-    match K as Body {
-        // c18
-        1 : Logon,
-        // c22a
-        // c22b
-        2 : Logout,
-        // c26
-    },// c28a
-    // c28b
-    Tail,// c30a
-    // c30b
-}// c31a
-
-// c31b
-packet Logout {
-    // c34a
-    // c34b
-    u16 reason,
-}
-
-// c38
-packet Tail {
-    // c41
-    u32 crc,// c44
-}// c45a
-// c45b")).
-Eval vm_compute in ("<<<M14>>>" ++ check (runes_of_ascii "MetaData u128
-    {// a // b
-string zchar //x
-`two words` ,u16 packetx
-`a\` , char[ 1 ] Logon	, len crc, char[
-7]i8i8,char[]calculatedFrom,
-} // @lengthOf(
-MetaData u
-    { u// " ++ [128512]%N ++ runes_of_ascii " emoji
-u128
-, //	t
-}root packet metadata { }options	{ matchKey =
-    255
-;
-x_y_z
-= 007 crc=int16
-; zchar =// c
-char[42 ]
-; int
-= true ;
-} options  {
-Header = """ ++ [128512]%N ++ runes_of_ascii """
-;
-len
-    = ' ' ; matchKey= """" ;MetaDataX =' '
-; o
-    = '\x00' ; }
-/// triple
-")).
-Eval vm_compute in ("<<<M1574>>>" ++ check (runes_of_ascii "// packet A { u8 x, }
-MetaData roots {
-    char[00] lengthOf ``,
-    As stringy,
-    x calculatedFrom,
-}
-
-packet i8i8 {
-    crc `crlf
-        line`,
-    @rightPad()
-    zchar[42] falsey,
-    /// triple
-    @tag(42)
-    u32 leftPad,
-    @tag(42)
-    a1 @lengthOf(Z9_),
-    match leftPad as crc {
-        [""a\""b"", 1, 255] : trueish,
-        3 : float,
-        0 : lengthOf,
-    },
-}")).
-Eval vm_compute in ("<<<M299>>>" ++ check (runes_of_ascii "// packet A { u8 x, }
-MetaData roots{ char[ 00]lengthOf
-``  , As stringy, x	calculatedFrom ,} packet i8i8	{
-crc `crlf
-line` , @rightPad// a // b
-( )zchar[ 42] falsey // trailing space 
-,
-    /// triple
-    @tag( 42 ) u32	leftPad  , @tag( 42 ) a1@lengthOf( Z9_ ) , match leftPad as crc{ [""a\""b"" , 1
-, 255
-]:	trueish ,3
-: float ,
-0 :lengthOf
-    ,
-} ,}")).
-Eval vm_compute in ("<<<M1925>>>" ++ check (runes_of_ascii "root packet leftPad {
-    T @lengthOf(A) `" ++ [233]%N ++ runes_of_ascii "`,
-    Header @lengthOf(As),
-    string calculatedFrom `{ , }`,
-    @tag(1)
-    // trailing space 
-    u16 x_y_z,
-    @tag(4294967296)
-    x_y_z metadata,
-    asx {
-        asx `it's`,
-    },
-    char[65535] As @lengthOf(Logon) `a\`,
-    @lengthOf(Z9_)
-    string BodyLength,
-}")).
-Eval vm_compute in ("<<<M1308>>>" ++ check (runes_of_ascii "packet A {
-    u8 a,
-}
-packet B {
-    u16 b,
-}
-packet C {
-    u32 c,
-}
-root packet M {
-    u16 Kc, u16 Kb, u16 Ka,
-    match Kc as X {
-        9 : A,
-        10 : B,
-    },
-    match Kb as Y {
-        2 : C,
-        1 : A,
-    },
-    match Ka as Z {
-        1 : B,
-    },
-    A, B, C,
-}
-")).
-Eval vm_compute in ("<<<M1382>>>" ++ check (runes_of_ascii "options {
+Eval vm_compute in ("<<<M1394>>>" ++ check (runes_of_ascii "options {
     LittleEndian = true;
 }
-packet Logon {
-    u8 x,
-    string user,
-}
-packet Logout {
-    u16 reason,
-}
-packet Empty {
+packet Sub {
+    u8 a,
+    @calculatedFrom(""CRC16"") uint64 SubSum,
 }
 root packet Frame {
     u16 MsgType,
-    u8 BodyLen @lengthOf(Body),
-    u8 flags,
-    Logon Body,
-    u32 trailer,
+    u16 BodyLen @lengthOf(Body),
+    Sub Body,
+    string note,
+    @calculatedFrom(""CRC16"") uint64 Checksum,
+    u8 tail,
 }
 ")).
-Eval vm_compute in ("<<<M364>>>" ++ check (runes_of_ascii "packet  _x
-{ repeat char[] matchKey// " ++ [128512]%N ++ runes_of_ascii " emoji
-, @leftPad( ) x_y_z/// triple
-T , Pad
-{ zchar[ 1] rootA `tab	here`
-,},Foo
-    @calculatedFrom(
-    """"
-    // trailing space 
-    ),
-}	packet MetaDataX {
-float64 body, }
-")).
-Eval vm_compute in ("<<<M1403>>>" ++ check (runes_of_ascii "packet A {
-    Inner {
-        match k as n {
-            [
-                1, 22, 007, 4, 5,
-                66, 7, 8, 9, 10,
-                11, 12
-            ] : B,
-        },
-    },
-}")).
-Eval vm_compute in ("<<<M1301>>>" ++ check (runes_of_ascii "
-
-  packet A
-{u8 a
-
-    ,
-	} packet 
-B { u16
-
-    b , }root packet P
-
-    {u8 K
-    , match
-    K as M
-	{ [ 1
-,
-	2 ]: 
-A
-
-    ,
-
-3 :B
-    ,	7
-    : A,
+Eval vm_compute in ("<<<M1404>>>" ++ check (runes_of_ascii "packet
+    T	{
 	}
-	,  }
 
-")).
-Eval vm_compute in ("<<<M1907>>>" ++ check (runes_of_ascii "
-
-  MetaData
-
-    leftPad {
-    chars
-    MetaDataX 
+MetaData
+	lengthOf	{
+    char[ 4294967296 
+]  a1
 ,
-}  packet repeatCount
 
-{	char[ 
-255
-	]  // c
-  uint8x 
-`" ++ [233]%N ++ runes_of_ascii "` , } 
-MetaData  pack
-	{ 
-As
-Foo
+    float64
 
-    , }")).
-Eval vm_compute in ("<<<M1673>>>" ++ check (runes_of_ascii "MetaData chars {
-}
+    body `100% of %d`,  asx	Foo ,
 
-options {
-    As = true;
-    As = false;
-    stringy = true
-}
+u8x
+pack
+    // @lengthOf(
 
-packet repeatCount {
-    string float @lengthOf(matchKey) `say ""hi""`,
-}")).
-Eval vm_compute in ("<<<M672>>>" ++ check (runes_of_ascii "// @lengthOf(
-packet i8i8 { u128 o , }
-options { MetaDataX = true;
-    BodyLength =""packet"" x_y_z= 007
-crc //x
-= ""abc"" ;
-    msg_type =
-@leftpad i16 }")).
-Eval vm_compute in ("<<<M457>>>" ++ check (runes_of_ascii "packet uint8x
-{ match pack
-    as msg_type	{
-    0123456789 :	float
-}
-,
-packet } //	t
-a1
-    { } options {packetx
-    = '\x00'	; u128= ""a	b""  ; }
-")).
-Eval vm_compute in ("<<<M515>>>" ++ check (runes_of_ascii "packet uint8x
-{ match pack
-    as msg_type	{
-    0123456789 :	float
-}
-,
-} packet //	t
-a1
-    { } options {packetx
-    = '\x00'	; u128 ""a	b""  ; }
-")).
-Eval vm_compute in ("<<<M1769>>>" ++ check (runes_of_ascii "MetaData
+// " ++ [128512]%N ++ runes_of_ascii " emoji
+  , 
+zchar[ 
+    // @lengthOf(
 
-    leftPad
-    { 
-chars
-MetaDataX// c
+  0123456789
 
-	,
-} packet repeatCount{
-char[ 255
-
-]
-	uint8x
-	`" ++ [233]%N ++ runes_of_ascii "` 
-,
-    }
-	MetaData 
-pack	{As
-	Foo
-,
-}
-
-")).
-Eval vm_compute in ("<<<M423>>>" ++ check (runes_of_ascii "packet uint8x
-{ match pack
-    as ,	{
-    0123456789 :	float
-}
-,
-} packet //	t
-a1
-    { } options {packetx
-    = '\x00'	; u128= ""a	b""  ; }
-")).
-Eval vm_compute in ("<<<M71>>>" ++ check (runes_of_ascii "root packet MetaDataX
-{repeat u8x len `" ++ [28040; 24687; 31867; 22411]%N ++ runes_of_ascii "`,
-As { u8x
-, } , int f32a
-`" ++ [233]%N ++ runes_of_ascii "`, @lengthOf( float ) Z9_
-// @lengthOf(
+] Z9_
+    ,char  As
+`crlf
+line`, } ")).
+Eval vm_compute in ("<<<M412>>>" ++ check (runes_of_ascii "packet
+    asx { @calculatedFrom(
+""""  ) ) @tag( 255 )repeat
+// packet A { u8 x, }
 // trailing space 
-`a\` , }")).
-Eval vm_compute in ("<<<M1728>>>" ++ check (runes_of_ascii "packet A {
-    B b `a
-            b
-          c`,
-    B `a
-            b
-          c`,
-    repeat B bs `a
-            b
-          c`,
-}")).
-Eval vm_compute in ("<<<M509>>>" ++ check (runes_of_ascii "packet uint8x
-{ match pack
-    as msg_type	{
-    0123456789 :	float
-}
+int16 u8x
 ,
-} packet //	t
-a1
-    { } options {packetx
-    = '\x00'")).
-Eval vm_compute in ("<<<M1258>>>" ++ check (runes_of_ascii "packet B {
-    u8 a,
-}
-root packet P {
-    u8 K,
-    u8 L @lengthOf(Body),
-    match K as Body {
-        1 : B,
-    },
-}
-")).
-Eval vm_compute in ("<<<M1159>>>" ++ check (runes_of_ascii "MetaData leftPad { chars MetaDataX , } packet repeatCount // c
-{ char[ 255 ] uint8x `" ++ [233]%N ++ runes_of_ascii "` , } MetaData pack { As Foo , }")).
-Eval vm_compute in ("<<<M102>>>" ++ check (runes_of_ascii "packet
-    // " ++ [128512]%N ++ runes_of_ascii " emoji
-    body {match Logon  as _x
-    {
-4294967296
-// a // b
+@tag(
+    //
+    007 )
+    @tag( 0
+    /// triple
+    ) @tag( 1) u
+    @lengthOf( T ),
+// `tick` ""quote"" 'q'
 //x
-:
-_x , """ ++ [28040; 24687]%N ++ runes_of_ascii """
-    : u128
-    ,} , }
+} // " ++ [128512]%N ++ runes_of_ascii " emoji")).
+Eval vm_compute in ("<<<M398>>>" ++ check (runes_of_ascii "packet
+    asx @calculatedFrom( {
+""""  ) @tag( 255 )repeat
+// packet A { u8 x, }
+// trailing space 
+int16 u8x
+,
+@tag(
+    //
+    007 )
+    @tag( 0
+    /// triple
+    ) @tag( 1) u
+    @lengthOf( T ),
+// `tick` ""quote"" 'q'
+//x
+} // " ++ [128512]%N ++ runes_of_ascii " emoji")).
+Eval vm_compute in ("<<<M545>>>" ++ check (runes_of_ascii "packet
+    asx { @calculatedFrom(
+""""  ) @tag( 255 )repeat
+// packet A { u8 x, }
+// trailing space 
+int16 a" ++ [769]%N ++ runes_of_ascii "b
+,
+@tag(
+    //
+    007 )
+    @tag( 0
+    /// triple
+    ) @tag( 1) u
+    @lengthOf( T ),
+// `tick` ""quote"" 'q'
+//x
+} // " ++ [128512]%N ++ runes_of_ascii " emoji")).
+Eval vm_compute in ("<<<M504>>>" ++ check (runes_of_ascii "packet
+    asx { @calculatedFrom(
+""""  ) @tag( 255 )repeat
+// packet A { u8 x, }
+// trailing space 
+int16 u8x
+,
+@tag(
+    //
+    007 )
+    @tag( 0
+    /// triple
+    ) @tag( 1) u
+    uint8 T ),
+// `tick` ""quote"" 'q'
+//x
+} // " ++ [128512]%N ++ runes_of_ascii " emoji")).
+Eval vm_compute in ("<<<M1258>>>" ++ check (runes_of_ascii "// top
+options // c0
+{ // c1a
+  // c1b
+LittleEndian = // c3
+true ; } // c6a
+  // c6b
+root // c7a
+  // c7b
+packet
+    // c8
+P {
+    // c10
+repeat char
+    // c12
+cs ,
+    // c14
+u8 x // c16a
+  // c16b
+,
+    // c17
+} ")).
+Eval vm_compute in ("<<<M27>>>" ++ check (runes_of_ascii "
+MetaData trueish{ string// 50% %s
+u	,
+// @lengthOf(
+//x
+pack Pad`say ""hi""`
+,// a // b
+int32 tag	, u8 asx , // 50% %s
+i32
+    len
+,int int `100% of %d`,
+} MetaData falsey { }
+// @lengthOf(
 ")).
-Eval vm_compute in ("<<<M1763>>>" ++ check (runes_of_ascii "packet
-    A {
-	match
+Eval vm_compute in ("<<<M495>>>" ++ check (runes_of_ascii "packet
+    asx { @calculatedFrom(
+""""  ) @tag( 255 )repeat
+// packet A { u8 x, }
+// trailing space 
+int16 u8x
+,
+@tag(
+    //
+    007 )
+    @tag( 0
+    /// triple
+    ) @tag( 1")).
+Eval vm_compute in ("<<<M664>>>" ++ check (runes_of_ascii "MetaData u
+    { } MetaData o
+{ float uint8x
+`100% of %d` ,repeatCount u8x, string_ leftPad
+, i32
+    Foo , int64 x `two words` packet calculatedFrom
+stringy `a\` ,
+}
+")).
+Eval vm_compute in ("<<<M662>>>" ++ check (runes_of_ascii "MetaData u
+    { } MetaData o
+{ float uint8x
+`100% of %d` ,repeatCount u8x, string_ leftPad
+, i32
+    Foo , int64 x `two words` , , calculatedFrom
+stringy `a\` ,
+}
+")).
+Eval vm_compute in ("<<<M583>>>" ++ check (runes_of_ascii "MetaData u
+    { } MetaData o
+{ uint8x float
+`100% of %d` ,repeatCount u8x, string_ leftPad
+, i32
+    Foo , int64 x `two words` , calculatedFrom
+stringy `a\` ,
+}
+")).
+Eval vm_compute in ("<<<M596>>>" ++ check (runes_of_ascii "MetaData u
+    { } MetaData o
+{ float uint8x
+`100% of %d` repeatCount u8x, string_ leftPad
+, i32
+    Foo , int64 x `two words` , calculatedFrom
+stringy `a\` ,
+}
+")).
+Eval vm_compute in ("<<<M589>>>" ++ check (runes_of_ascii "MetaData u
+    { } MetaData o
+{ float )
+`100% of %d` ,repeatCount u8x, string_ leftPad
+, i32
+    Foo , int64 x `two words` , calculatedFrom
+stringy `a\` ,
+}
+")).
+Eval vm_compute in ("<<<M1701>>>" ++ check (runes_of_ascii "packet A {
+    match k as n {
+        [
+            1, 22, 007, 4, 5,
+            66, 7, 8, 9, 10,
+            11
+        ] : B,
+        2 : C,
+    },
+}")).
+Eval vm_compute in ("<<<M1467>>>" ++ check (runes_of_ascii "  packet
+	A {
+
+    match
+k as
+	n
+
+    {
+	[	1, 22
+,
+	""c c""  ,4	, 5
+, ""f""  , 7
+    ,	8
+    , ""i"" , 10	,
+11 , 
+""l""]: 
+B 2
+	:
+	C },
+    }
+")).
+Eval vm_compute in ("<<<M1749>>>" ++ check (runes_of_ascii "
+packet A { match
 
 k
-as
-	n {
+	as
+	n
+{
+[""a""
+	,""bb""
+    ,
+	""c c""
 
-    [
-	""a"" 
-, ""bb"",	""c c""	,  ""d""
+,	""d"",
+	""e""
 
+, ""f""
+    ,""g"",""h""
+
+    ,
+""i"", ""j""  ]:
+B
+2
+
+    :
+
+C
+
+}
+,}")).
+Eval vm_compute in ("<<<M1586>>>" ++ check (runes_of_ascii "
+packet
+    A {
+    match  k
+as n
+
+    { 
+[
+1 ,  22  , ""c c""  ,
+4,	5
+
+    , ""f""
 ,
-""e"" ,""f""
+7
+,
 
-]  :B
-
-, 
-2 : C
-    }  ,
+    8 ] :
+B ,
+2
+: C } ,
 } ")).
-Eval vm_compute in ("<<<M931>>>" ++ check (runes_of_ascii "packet A {
-    u16 len @lengthOf(body) `
+Eval vm_compute in ("<<<M905>>>" ++ check (runes_of_ascii "packet A {
+  match k as n {
+    [""a"", ""bb"", ""c c"", ""d"", ""e"", ""f"", ""g"", ""h"", ""i"", ""j"", ""k"", ""l""] : B
+    2 : C
+  },
+}")).
+Eval vm_compute in ("<<<M1218>>>" ++ check (runes_of_ascii "options { } options { MetaDataX = char
+// c
+; } MetaData Pad { i8 metadata , string stringy , int8 As `{ , }` , }")).
+Eval vm_compute in ("<<<M1621>>>" ++ check (runes_of_ascii "
+
+  packet A{
+
+match
+    k
+as 
+n
+{ 
+[	""a"" 
+,
+
+    ""bb"",
+007,	""d""
+,
+
+""e"" , 
+66  ] : B,
+2 :
+
+C
+}
+    ,
+
+    }
+")).
+Eval vm_compute in ("<<<M947>>>" ++ check (runes_of_ascii "packet A {
+    u16 len @lengthOf(body) `x
 `,
-    u32 crc @calculatedFrom(""CRC32"") `
+    u32 crc @calculatedFrom(""CRC32"") `x
 `,
     string body,
 }")).
-Eval vm_compute in ("<<<M884>>>" ++ check (runes_of_ascii "packet A {
+Eval vm_compute in ("<<<M893>>>" ++ check (runes_of_ascii "packet A {
   match k as n {
-    [""a"", 22, ""c c"", 4, ""e"", 66, ""g"", 8, ""i"", 10] : B,
+    [1, ""bb"", 007, ""d"", 5, ""f"", 7, ""h"", 9, ""j"", 11] : B,
     2 : C
   },
 }")).
-Eval vm_compute in ("<<<M1892>>>" ++ check (runes_of_ascii "packet B {
-    u8 a,
-    string s,
-}
-
-root packet P {
-    u16 L @lengthOf(B),
-    B,
-    u8 t,
+Eval vm_compute in ("<<<M930>>>" ++ check (runes_of_ascii "packet A {
+    Inner {
+        u8 x `
+`,
+        Deep {
+            u8 y `
+`,
+        },
+    },
 }")).
-Eval vm_compute in ("<<<M841>>>" ++ check (runes_of_ascii "packet A {
-  match k as n {
-    [""a"", ""bb"", ""c c"", ""d"", ""e"", ""f"", ""g""] : B,
-    2 : C
-  },
-}")).
-Eval vm_compute in ("<<<M632>>>" ++ check (runes_of_ascii "
-packet
-    asx {match u128 a|s lengthOf
-{
-//	t
-// `tick` ""quote"" 'q'
-255 : x ,
-    } ,	}")).
-Eval vm_compute in ("<<<M1709>>>" ++ check (runes_of_ascii "
-packet
+Eval vm_compute in ("<<<M1604>>>" ++ check (runes_of_ascii "packet 
+A{	match
+k 
+as
+    n {
+[""a""
+,""bb""
 
-msg_type
-
-{
-
-    repeat 	 // " ++ [27880; 37322]%N ++ runes_of_ascii "
-  zchar[
-007]
-
-    Logon
-
-`two words` ,
-
-}
-")).
-Eval vm_compute in ("<<<M1289>>>" ++ check (runes_of_ascii "
-root
-
-    packet
-
-P
-{repeat	string
-    ss
-    ,  repeat
-    u16
-ns
     ,
+007,
+    ""d""
 
-    }
+] :B
+	,
+    2:  C	}
+	,  }
+
 ")).
-Eval vm_compute in ("<<<M832>>>" ++ check (runes_of_ascii "packet A {
+Eval vm_compute in ("<<<M855>>>" ++ check (runes_of_ascii "packet A {
   match k as n {
-    [""a"", 22, ""c c"", 4, ""e"", 66] : B,
+    [1, ""bb"", 007, ""d"", 5, ""f"", 7, ""h""] : B
     2 : C
   },
 }")).
-Eval vm_compute in ("<<<M1649>>>" ++ check (runes_of_ascii "
-packet 
-    // c
-	body {
-    i32 f32a 
-`{ , }`
-,  }
-    options
-
-    {
-}
-")).
-Eval vm_compute in ("<<<M345>>>" ++ check (runes_of_ascii "
-options
-{ } // " ++ [128512]%N ++ runes_of_ascii " emoji
-options { float // `tick` ""quote"" 'q'
-=	65535 }
-")).
-Eval vm_compute in ("<<<M793>>>" ++ check (runes_of_ascii "packet A {
+Eval vm_compute in ("<<<M859>>>" ++ check (runes_of_ascii "packet A {
   match k as n {
-    [""a"", 22, ""c c""] : B,
+    [1, 22, ""c c"", 4, 5, ""f"", 7, 8] : B
     2 : C
   },
 }")).
-Eval vm_compute in ("<<<M653>>>" ++ check (runes_of_ascii "// @lengthOf(
-packet i8i8 { u128 o , }
-options { MetaDataX = true")).
-Eval vm_compute in ("<<<M825>>>" ++ check (runes_of_ascii "packet A { Inner { match k as n { [1,22,007,4,5] : B, }, }, }")).
-Eval vm_compute in ("<<<M1798>>>" ++ check (runes_of_ascii "root packet A {
-    u8 x `a
-            b
-          c`,
+Eval vm_compute in ("<<<M1852>>>" ++ check (runes_of_ascii "packet A {
+    match k as n {
+        [1, ""bb"", 007] : B,
+        2 : C,
+    },
 }")).
-Eval vm_compute in ("<<<M1199>>>" ++ check (runes_of_ascii "packet // c
-body { i32 f32a `{ , }` , } options { }")).
-Eval vm_compute in ("<<<M1594>>>" ++ check (runes_of_ascii "MetaData M {
-    u8 x `
-    `,
-    T t `
-    `,
-}")).
-Eval vm_compute in ("<<<M1686>>>" ++ check (runes_of_ascii "packet
-	A{
+Eval vm_compute in ("<<<M1526>>>" ++ check (runes_of_ascii "
 
-u8 x
-,
-	    // c
+  root
 
-u8
-y
-,
-}
+packet  P
+{ u16 a,
+	u32
+Sum @calculatedFrom(
+
+""CRC32""
+    ) ,}
 ")).
-Eval vm_compute in ("<<<M1490>>>" ++ check (runes_of_ascii "MetaData M {
-}// c
-
-MetaData N {
-}// d")).
-Eval vm_compute in ("<<<M424>>>" ++ check (runes_of_ascii "packet uint8x
-{ match pack
-    as")).
-Eval vm_compute in ("<<<M959>>>" ++ check (runes_of_ascii "packet A {
-    u8 x `tab
+Eval vm_compute in ("<<<M958>>>" ++ check (runes_of_ascii "packet A {
+    B b `tab
+	x`,
+    B `tab
+	x`,
+    repeat B bs `tab
 	x`,
 }")).
-Eval vm_compute in ("<<<M941>>>" ++ check (runes_of_ascii "packet A {
-    u8 x `a
-
-b`,
+Eval vm_compute in ("<<<M789>>>" ++ check (runes_of_ascii "packet A {
+  match k as n {
+    [1, ""bb"", 007] : B,
+    2 : C
+  },
 }")).
-Eval vm_compute in ("<<<M1437>>>" ++ check (runes_of_ascii "MetaData tag {
+Eval vm_compute in ("<<<M782>>>" ++ check (runes_of_ascii "packet A {
+  match k as n {
+    [""a"", 22] : B,
+    2 : C
+  },
+}")).
+Eval vm_compute in ("<<<M1679>>>" ++ check (runes_of_ascii "root packet len {
+    @calculatedFrom(""a\""b"")
+    i16 a1,
+}")).
+Eval vm_compute in ("<<<M236>>>" ++ check (runes_of_ascii "  MetaData // `tick` ""quote"" 'q'
+u128{ body float	,}
+")).
+Eval vm_compute in ("<<<M1506>>>" ++ check (runes_of_ascii "root packet A{
+
+    u8
+    x  `%%d%!` 
+, 
+}
+")).
+Eval vm_compute in ("<<<M1085>>>" ++ check (runes_of_ascii "packet A {
+    u8 x,    // c    u8 y,
+}")).
+Eval vm_compute in ("<<<M1193>>>" ++ check (runes_of_ascii "options { A = ""// no comment"" } // c
+")).
+Eval vm_compute in ("<<<M736>>>" ++ check (runes_of_ascii "1WT[xl4v9M!>1/;cBK[4~4^pGS{F8PS~T'm")).
+Eval vm_compute in ("<<<M1082>>>" ++ check (runes_of_ascii "packet A {
+ u8 x `d x`, // c x
+}")).
+Eval vm_compute in ("<<<M1042>>>" ++ check (runes_of_ascii "packet A {
+ u8 x `d" ++ [8239]%N ++ runes_of_ascii "`, // c" ++ [8239]%N ++ runes_of_ascii "
+}")).
+Eval vm_compute in ("<<<M1529>>>" ++ check (runes_of_ascii "root packet a1 {
     // c
 }")).
-Eval vm_compute in ("<<<M63>>>" ++ check (runes_of_ascii "packet i64_
-    { }
-
+Eval vm_compute in ("<<<M1145>>>" ++ check (runes_of_ascii "root packet // c
+a1 { }")).
+Eval vm_compute in ("<<<M167>>>" ++ check (runes_of_ascii "MetaData u8x{}
+//	t
 ")).
-Eval vm_compute in ("<<<M1130>>>" ++ check (runes_of_ascii "MetaData // c
-u { }")).
-Eval vm_compute in ("<<<M1021>>>" ++ check (runes_of_ascii "packet A {
+Eval vm_compute in ("<<<M1050>>>" ++ check (runes_of_ascii "packet A {
 }
-// c" ++ [8239]%N)).
-Eval vm_compute in ("<<<M999>>>" ++ check (runes_of_ascii "packet A {
-}// c" ++ [8192]%N)).
-Eval vm_compute in ("<<<M762>>>" ++ check (runes_of_ascii "w|lL|]kVFeknSP9")).
-Eval vm_compute in ("<<<M84>>>" ++ check (runes_of_ascii " // " ++ [27880; 37322]%N)).
-Eval vm_compute in ("<<<M736>>>" ++ check (runes_of_ascii " " ++ [12]%N ++ runes_of_ascii " ")).
+// c" ++ [11]%N)).
+Eval vm_compute in ("<<<M1048>>>" ++ check (runes_of_ascii "packet A {
+}// c" ++ [11]%N)).
+Eval vm_compute in ("<<<M1638>>>" ++ check (runes_of_ascii "MetaData u {
+}")).
+Eval vm_compute in ("<<<M1024>>>" ++ check (runes_of_ascii "// c" ++ [8202]%N)).
